@@ -164,6 +164,26 @@ theorem model_confined (f : Nat) (hf : f ∈ table.fieldIds modelStateFields) {t
   exact BFL.Race.controller_free_no_access table f
     (controllerFree_of_cert cert_controller f (h.2 f hf).1) hc pre post o w s
 
+/-- **must hold — evaluated on the regenerated table**: the hooks of the user's filter — the pure virtual
+    `initialization_step`, `filtering_step`, `run_condition` of `FilteringAlgorithm`, their overriders in the
+    library (`SIS`), and `Logger::log` — are invoked by the filtering role and by no function reachable from a
+    control or query command. -/
+theorem table_hooks_confined :
+    table.confinedIn hookStateFields (reachClaim .controller) (reachClaim .filter) = true :=
+  hooks_confined_cert
+
+/-- Consequence: in no conforming interleaving does the controller thread touch the state behind the hooks
+    (`GaussianFilter` / `ParticleFilter` / `SIS` subclasses' `initialization_step`, `filtering_step`,
+    `run_condition`, `log`): commands only set flags, they never run the filter's code. -/
+theorem hooks_confined (f : Nat) (hf : f ∈ table.fieldIds hookStateFields) {tr : List Ev}
+    (hc : Conforms table tr) (pre post : List Ev) (o : Obj) (w s : Bool) :
+    tr ≠ pre ++ Ev.acc .controller (o, f) w s :: post := by
+  have h := hooks_confined_cert
+  unfold Table.confinedIn at h
+  simp only [Bool.and_eq_true, List.all_eq_true] at h
+  exact BFL.Race.controller_free_no_access table f
+    (controllerFree_of_cert cert_controller f (h.2 f hf).1) hc pre post o w s
+
 /-- **must hold — the join is certified from the table**: the filtering thread performs no operation on
     a thread handle; the controller spawns only in `boot()`, joins only in `wait()`, and otherwise only
     asks `joinable()` / queries — no function of either role detaches, moves, swaps or reassigns the
